@@ -29,5 +29,4 @@ NOT_APPLICABLE = {
 }
 
 NOT_BUILT = {
- "C24": "contract designed (DESIGN section 4); the C front end (clang JSON AST interpreter) is not built, vm_mngr.c is out of the Python verifier's reach",
 }
